@@ -19,13 +19,16 @@ func genScenario(t *rapid.T, kind string) LeaseScenario {
 	case "hold":
 		s.Periods = rapid.IntRange(3, vstat.Pick(6, 10)).Draw(t, "periods")
 		s.DelayPct = rapid.SampledFrom([]int{0, 0, 5, 10, 15}).Draw(t, "delayPct")
-		switch rapid.IntRange(0, 5).Draw(t, "faults") {
+		switch rapid.IntRange(0, 6).Draw(t, "faults") {
 		case 0: // fault free
 		case 1, 2, 3: // one failing renewal call, any k
 			s.FailCas = []int{rapid.IntRange(1, 2*s.Periods).Draw(t, "k")}
 		case 4: // two consecutive failures
 			k := rapid.IntRange(1, 2*s.Periods-1).Draw(t, "k")
 			s.FailCas = []int{k, k + 1}
+		case 6: // three failures in a row: the retries at 5/8, 6/8 and 7/8 of the lease, the last one succeeds
+			k := rapid.IntRange(1, 2*s.Periods-2).Draw(t, "k")
+			s.FailCas = []int{k, k + 1, k + 2}
 		case 5: // two separate failures
 			k := rapid.IntRange(1, 2*s.Periods-2).Draw(t, "k")
 			s.FailCas = []int{k, k + 2 + rapid.IntRange(0, 3).Draw(t, "gap")}
@@ -44,13 +47,16 @@ func genScenario(t *rapid.T, kind string) LeaseScenario {
 		// combination well inside it - "individual renewal attempts failed transiently" on a storage that answers
 		// (a failed attempt costs lease/8 plus twice the latency: after lease/2 + lease/8 + 3 x latency the record must still be alive)
 		switch {
-		case len(s.FailCas) == 2 && s.FailCas[1] == s.FailCas[0]+1:
+		case len(s.FailCas) >= 2 && s.FailCas[1] == s.FailCas[0]+1:
 			s.DelayPct = 0
 		case len(s.FailCas) > 0:
 			s.DelayPct = min(s.DelayPct, 5)
 		}
 		s.Acquire = rapid.SampledFrom([]string{"", "", "lockctx", "trylock", "lockctx-deadline", "trylock-deadline"}).Draw(t, "acquire")
 		s.ErrKind = rapid.IntRange(0, 5).Draw(t, "errKind")
+		if rapid.IntRange(0, 3).Draw(t, "sharedUse") == 0 {
+			s.Shared = rapid.IntRange(1, 2).Draw(t, "shared")
+		}
 		s.Blocking = rapid.Bool().Draw(t, "blockingContender")
 		if s.Blocking && rapid.Bool().Draw(t, "contenderFaults") {
 			// the contender makes about one Create per sample (five per lease) plus retries
@@ -67,6 +73,7 @@ func genScenario(t *rapid.T, kind string) LeaseScenario {
 		s.PhasePct = rapid.IntRange(0, 99).Draw(t, "phase")
 		s.Renewals = rapid.IntRange(0, 3).Draw(t, "renewals")
 		s.Waiters = rapid.SampledFrom([]int{1, 2, 2, 3}).Draw(t, "waiters")
+		s.CancelFirst = s.Waiters > 1 && rapid.Bool().Draw(t, "cancelFirst")
 	case "unlockrace":
 		s.After = rapid.Bool().Draw(t, "after")
 	case "relock":
@@ -75,6 +82,10 @@ func genScenario(t *rapid.T, kind string) LeaseScenario {
 	case "sharedhandoff":
 		s.Wait10 = rapid.IntRange(1, 9).Draw(t, "wait10")
 		s.After = rapid.Bool().Draw(t, "requestDelayed")
+	case "tryfail":
+		s.ErrKind = rapid.IntRange(0, 5).Draw(t, "errKind")
+		s.After = rapid.Bool().Draw(t, "lockWithCtx")
+		s.Applied = rapid.IntRange(0, 3).Draw(t, "applied") == 0
 	case "trygate":
 		s.Wait10 = rapid.IntRange(0, 9).Draw(t, "wait10")
 		s.After = rapid.Bool().Draw(t, "lockWithCtx")
@@ -82,6 +93,7 @@ func genScenario(t *rapid.T, kind string) LeaseScenario {
 		s.Hold10 = rapid.IntRange(0, 14).Draw(t, "hold10")
 		s.Applied = rapid.IntRange(0, 3).Draw(t, "applied") == 0
 		s.InFlight = rapid.SampledFrom([]int{0, 0, 1, 2}).Draw(t, "inFlight")
+		s.Same = !s.Applied && rapid.Bool().Draw(t, "sameLockerRelocks")
 	case "bystander":
 		s.After = rapid.Bool().Draw(t, "after")
 		s.Waiters = rapid.IntRange(0, 2).Draw(t, "others")
@@ -96,7 +108,7 @@ func genScenario(t *rapid.T, kind string) LeaseScenario {
 }
 
 func recordLease(s LeaseScenario, info LeaseInfo) {
-	nt := (s.Kind == "hold" && info.InjectedFailures > 0) || s.Kind == "death" || s.Kind == "handoff" || s.Kind == "waithold" || (s.Kind == "bystander" && info.HeldInFlight) || (s.Kind == "unlockrace" && info.HeldInFlight) || (s.Kind == "relock" && info.HeldInFlight) || s.Kind == "unlockfail" || (s.Kind == "multi" && len(s.Unlocks) > 0) || s.Kind == "sharedhandoff" || s.Kind == "trygate"
+	nt := (s.Kind == "hold" && info.InjectedFailures > 0) || s.Kind == "death" || s.Kind == "handoff" || s.Kind == "waithold" || (s.Kind == "bystander" && info.HeldInFlight) || (s.Kind == "unlockrace" && info.HeldInFlight) || (s.Kind == "relock" && info.HeldInFlight) || s.Kind == "unlockfail" || (s.Kind == "multi" && len(s.Unlocks) > 0) || s.Kind == "sharedhandoff" || s.Kind == "trygate" || s.Kind == "tryfail"
 	cl := []string{"scenario:" + s.Kind, fmt.Sprintf("lease_ms:%d", s.LeaseMs)}
 	if info.Retried > 0 {
 		cl = append(cl, "confirmed_only_after_retry")
@@ -159,7 +171,7 @@ func TestC05Rapid(t *testing.T) {
 		var batch []LeaseScenario
 		races := 0
 		for i := 0; i < n; i++ {
-			kind := rapid.SampledFrom([]string{"hold", "hold", "hold", "death", "death", "unlockrace", "relock", "unlockfail", "handoff", "handoff", "waithold", "bystander", "sharedhandoff", "trygate"}).Draw(rt, "kind")
+			kind := rapid.SampledFrom([]string{"hold", "hold", "hold", "death", "death", "unlockrace", "relock", "unlockfail", "handoff", "handoff", "waithold", "bystander", "sharedhandoff", "trygate", "tryfail"}).Draw(rt, "kind")
 			if kind == "unlockrace" || kind == "bystander" || kind == "relock" || kind == "unlockfail" {
 				if races >= 3 { // every such scenario parks one worker of the timer pool for a while
 					kind = "hold"
@@ -210,6 +222,12 @@ func TestC05EveryK(t *testing.T) {
 	for kind := 1; kind <= 5; kind++ {
 		batch = append(batch, LeaseScenario{Kind: "hold", LeaseMs: lease, Periods: 4, FailCas: []int{kind}, ErrKind: kind})
 	}
+	runBatch(t, "TestC05EveryK", batch)
+	batch = nil
+	batch = append(batch, LeaseScenario{Kind: "hold", LeaseMs: lease, Periods: 4, FailCas: []int{1, 2, 3}}, LeaseScenario{Kind: "hold", LeaseMs: lease, Periods: 4, FailCas: []int{3, 4, 5}},
+		LeaseScenario{Kind: "hold", LeaseMs: lease, Periods: 3, Shared: 1}, LeaseScenario{Kind: "hold", LeaseMs: lease, Periods: 3, Shared: 2},
+		LeaseScenario{Kind: "unlockfail", LeaseMs: lease, Hold10: 3, Same: true}, LeaseScenario{Kind: "unlockfail", LeaseMs: lease, InFlight: 1, Same: true},
+		LeaseScenario{Kind: "death", LeaseMs: lease, PhasePct: 40, Renewals: 1, Waiters: 2, CancelFirst: true}, LeaseScenario{Kind: "death", LeaseMs: lease, PhasePct: 80, Renewals: 0, Waiters: 3, CancelFirst: true})
 	batch = append(batch, LeaseScenario{Kind: "hold", LeaseMs: lease, Periods: 3, Acquire: "trylock-deadline"}, LeaseScenario{Kind: "hold", LeaseMs: lease, Periods: 3, Acquire: "lockctx-deadline"})
 	for _, acq := range []string{"lockctx", "trylock"} {
 		batch = append(batch, LeaseScenario{Kind: "hold", LeaseMs: lease, Periods: 4, Acquire: acq})
@@ -261,6 +279,8 @@ func TestC01LongWaiter(t *testing.T) {
 	}
 	batch = append(batch, LeaseScenario{Kind: "hold", LeaseMs: 300, Periods: 3, Acquire: "trylock-deadline", OnlyExcl: true}, LeaseScenario{Kind: "hold", LeaseMs: 300, Periods: 3, Acquire: "lockctx-deadline", OnlyExcl: true},
 		LeaseScenario{Kind: "trygate", LeaseMs: 300, Wait10: 3, OnlyExcl: true}, LeaseScenario{Kind: "trygate", LeaseMs: 300, Wait10: 5, After: true, OnlyExcl: true})
+	batch = append(batch, LeaseScenario{Kind: "hold", LeaseMs: 300, Periods: 3, Shared: 1, OnlyExcl: true}, LeaseScenario{Kind: "hold", LeaseMs: 300, Periods: 3, Shared: 2, OnlyExcl: true},
+		LeaseScenario{Kind: "hold", LeaseMs: 300, Periods: 4, FailCas: []int{1, 2, 3}, OnlyExcl: true}, LeaseScenario{Kind: "hold", LeaseMs: 300, Periods: 4, FailCas: []int{2, 3, 4}, OnlyExcl: true})
 	batch = append(batch, LeaseScenario{Kind: "sharedhandoff", LeaseMs: 300, Wait10: 2, OnlyExcl: true}, LeaseScenario{Kind: "sharedhandoff", LeaseMs: 300, Wait10: 6, After: true, OnlyExcl: true})
 	batch = append(batch, LeaseScenario{Kind: "hold", LeaseMs: 300, Periods: 3, Blocking: true, FailCreate: []int{1, -3, 6}, OnlyExcl: true})
 	// an ownerless record expires under several waiters: they must take the lock one at a time
@@ -301,7 +321,7 @@ func TestC04LateRenewal(t *testing.T) {
 	resetTimers()
 	defer drainTimers()
 	st := vstat.For("C04")
-	c04 := map[string]bool{"lease:record-after-unlock": true, "lease:cannot-reacquire": true, "lease:not-released": true, "lease:relock-stuck": true, "lease:panic": true}
+	c04 := map[string]bool{"lease:record-after-unlock": true, "lease:cannot-reacquire": true, "lease:not-released": true, "lease:relock-stuck": true, "lease:panic": true, "lease:never-released": true, "lease:trylock-true-after-error": true}
 	leases := vstat.Pick([]int{300}, []int{100, 300, 600})
 	var batch []LeaseScenario
 	for _, l := range leases {
@@ -312,6 +332,10 @@ func TestC04LateRenewal(t *testing.T) {
 			}
 		}
 	}
+	for kind := 0; kind <= 5; kind++ {
+		batch = append(batch, LeaseScenario{Kind: "tryfail", LeaseMs: 300, ErrKind: kind}, LeaseScenario{Kind: "tryfail", LeaseMs: 300, ErrKind: kind, After: true})
+	}
+	batch = append(batch, LeaseScenario{Kind: "tryfail", LeaseMs: 300, ErrKind: 1, Applied: true}, LeaseScenario{Kind: "unlockfail", LeaseMs: 300, Hold10: 3, Same: true})
 	for lo := 0; lo < len(batch); lo += 3 { // every scenario parks one worker of the timer pool
 		hi := min(lo+3, len(batch))
 		viols := make([]*vstat.Violation, hi-lo)
@@ -344,6 +368,7 @@ func TestC05Multi(t *testing.T) {
 	st := vstat.For("C05")
 	var list []LeaseScenario
 	// systematic: three locks a < b < c, the two older ones unlocked in order of age at every pair of phases of their renewal cycles
+	list = append(list, LeaseScenario{Kind: "multi", LeaseMs: 300, Locks: 1, Warm: 2}, LeaseScenario{Kind: "multi", LeaseMs: 300, Locks: 2, Stagger10: 1, Warm: 5})
 	for _, at := range [][2]int{{1, 2}, {1, 4}, {2, 3}, {3, 6}} {
 		list = append(list, LeaseScenario{Kind: "multi", LeaseMs: 300, Locks: 3, Stagger10: 1, Unlocks: []MultiUnlock{{0, at[0]}, {1, at[1]}}})
 	}
@@ -351,6 +376,9 @@ func TestC05Multi(t *testing.T) {
 		if len(list) == 0 {
 			n := rapid.IntRange(2, 5).Draw(rt, "locks")
 			s := LeaseScenario{Kind: "multi", LeaseMs: rapid.SampledFrom(vstat.Pick([]int{300}, []int{100, 300, 600})).Draw(rt, "lease"), Locks: n, Stagger10: rapid.IntRange(0, 3).Draw(rt, "stagger")}
+			if rapid.Bool().Draw(rt, "warmPool") {
+				s.Warm = rapid.IntRange(2, 12).Draw(rt, "warm")
+			}
 			for i := 0; i < n; i++ {
 				if rapid.IntRange(0, 2).Draw(rt, "unlock") > 0 {
 					s.Unlocks = append(s.Unlocks, MultiUnlock{I: i, At10: rapid.IntRange(0, 12).Draw(rt, "at")})
